@@ -5,9 +5,10 @@ operator of PD observes: the store records, the region, and the steps of an oper
 scatter or a scheduler produced (record types and the region simulator are those of Spec/C10).
 
 "Up store" = state Up and heartbeat within max-store-down-time.  "Accepts leaders" = the store exists,
-is Up, not down, leader transfer is not paused and it carries no reject-leader label; for the *forced*
-variants (region scatter and grant-leader build their operator with a forced target leader) it means:
-the store exists and is not a tombstone.
+is Up, not down, leader transfer is not paused and it carries no reject-leader label.  Only for the
+*forced* variant – grant-leader, whose target store is named by the administrator – it means: the store
+exists and is not a tombstone.  Region scatter also builds its operator with a forced target leader (to
+get past the leader schedule limit), but it picks that leader itself, so it is held to the full clause.
 -/
 namespace PdModel.Spec.C11
 open PdModel.Spec.C10
@@ -18,7 +19,7 @@ structure Input where
   region       : Region
   /-- label property reject-leader -/
   rejectLeader : List (String × String) := []
-  /-- the operator was built with a forced target leader (scatter-region, grant-leader) -/
+  /-- the operator hands the leader to a store the administrator named (grant-leader) -/
   forced       : Bool := false
   deriving Repr, Inhabited
 
